@@ -334,6 +334,50 @@ def cli_same_as_library(ctx, cases, res):
     finally:
         shutil.rmtree(root, ignore_errors=True)
 
+def mcp_figures(ctx, cases, res):
+    """The MCP front-end: every money figure explain_matching shows for a disposal (proceeds, each leg's cost and gain, the total) and
+    calculate_report lists is the computed value in full or its pence rounding with midpoints away from zero."""
+    import shutil
+    from . import props_mcp as PM, mcp as MCP
+    def has_mid(r): return any(near_midpoint(l[k]) for y in r["report"]["years"] for d in y["disposals"] for l in d["legs"] for k in ("cost", "gain"))
+    ok = [c for c in cases if res[c].get("ok") and any(y["disposals"] for y in res[c]["report"]["years"])]
+    picked = ([c for c in ok if has_mid(res[c])] + [c for c in ok if not has_mid(res[c])])[:ctx.n(14, 200)]
+    if not picked: return
+    root = os.path.join(build.CACHE, "run", "c17mcp-%d" % os.getpid()); shutil.rmtree(root, ignore_errors=True)
+    try:
+        reqs = []; idx = []
+        for cid in picked:
+            dsl = ledger.render(cases[cid])
+            for y in res[cid]["report"]["years"]:
+                for d in y["disposals"][:3]:
+                    reqs.append((cid, ("tools/call", {"name": "explain_matching", "arguments": {"transactions": dsl, "disposal_date": compare.iso_of_ordinal(d["date"]) if isinstance(d["date"], int) else d["date"], "ticker": d["tick"]}})))
+                    idx.append((cid, d))
+        r = PM.run_session(root, reqs, True, "int")
+        def shown_ok(shown, value):
+            try: s_ = F(shown)
+            except Exception: return False
+            return s_ == F(value) or s_ == half_away_2(value)
+        for k, (cid, d) in enumerate(idx):
+            rr = r["got"].get(json.dumps(r["ids"][k]), [None])[0] if k < len(r["ids"]) else None
+            txt, iserr = MCP.tool_text(rr) if rr else (None, True)
+            ctx.evaluations += 1
+            if rr is None or "error" in rr or iserr: continue          # C20's business
+            j = json.loads(txt); bad = []
+            if not (shown_ok(j["proceeds"], d["net"]) or shown_ok(j["proceeds"], d["gross"])): bad.append(("proceeds", j["proceeds"], d["net"]))
+            if len(j["matches"]) == len(d["legs"]):
+                for a, b in zip(j["matches"], d["legs"]):
+                    if not shown_ok(a["allowable_cost"], b["cost"]): bad.append(("leg cost", a["allowable_cost"], b["cost"]))
+                    if not shown_ok(a["gain_or_loss"], b["gain"]): bad.append(("leg gain", a["gain_or_loss"], b["gain"]))
+            if not shown_ok(j["total_gain_or_loss"], d["m_gain"]): bad.append(("total gain", j["total_gain_or_loss"], d["m_gain"]))
+            ctx.count("mcp_explain_figures", "ok" if not bad else "differs")
+            if bad:
+                ctx.disagreements_checked += 1
+                ctx.violation("MCP explain_matching shows %s %s, the computed value is %s (neither in full nor rounded to pence with midpoints away from zero)" % bad[0],
+                              {"input_dsl": ledger.render(cases[cid]), "disposal": d, "explain_matching": j, "differences": [list(map(str, b)) for b in bad[:6]], "case_id": cid}, found_input=True)
+                return
+    finally:
+        shutil.rmtree(root, ignore_errors=True)
+
 def k_c17(ctx):
     rng = ctx.rng
     n = ctx.n(300, 5000); npdf = ctx.n(40, 600)
@@ -378,6 +422,7 @@ def k_c17(ctx):
         if len(pdf_cases) < npdf and rep["years"]: pdf_cases.append(cid)
     # the command-line front-end prints what the library's formatters produce (all years and one tax year)
     cli_same_as_library(ctx, cases, res)
+    mcp_figures(ctx, cases, res)
     # PDF through the hook
     if pdf_cases:
         out = subprocess.run([build.PDF_HARNESS], input="".join(json.dumps({"id": c, "dsl": ledger.render(cases[c])}) + "\n" for c in pdf_cases),
